@@ -577,30 +577,42 @@ def expand (dim : DimArg) (internal : Int) (size : Nat) (axis : Nat) (a : NodeAr
 
 def trivialPayload : Payload := { fn := "trivial" }
 
-/-- the assertion loop of `broadcast`: coordinates present in both must be equal -/
-def broadcastCheck (a b : NodeArray) : Except Err Unit := do
-  b.dims.forM fun y => do
-    if !y.indexed then pure () else
-    match a.findDim y.name with
-    | some x =>
-      if !x.indexed then pure ()
-      else if x.labels = y.labels then pure ()
-      else if x.labels.length = y.labels.length then throw Err.assert
-      else if x.labels.length = 1 || y.labels.length = 1 then
-        -- NumPy broadcasts the comparison of a length-1 coordinate
-        (if (x.labels ++ y.labels).all (fun c => some c = x.labels.head?) then throw Err.outOfScope else throw Err.assert)
-      else throw Err.value
-    | none =>
-      match a.scalar? y.name with
-      | some v => if y.labels.all (· = v) then throw Err.outOfScope else throw Err.assert
-      | none => pure ()
-  b.scalars.forM fun (n, v) =>
-    match a.scalar? n with
-    | some w => if v = w then pure () else throw Err.assert
-    | none =>
-      match a.findDim n with
-      | some x => if !x.indexed then pure () else if x.labels.all (· = v) then throw Err.outOfScope else throw Err.assert
-      | none => pure ()
+/-- one round of the assertion loop of `broadcast`, for a dimension coordinate of the other array -/
+def broadcastCheckDim (a : NodeArray) (y : Dim) : Except Err Unit :=
+  if !y.indexed then .ok () else
+  match a.findDim y.name with
+  | some x =>
+    if !x.indexed then .ok ()
+    else if x.labels = y.labels then .ok ()
+    else if x.labels.length = y.labels.length then .error .assert
+    else if x.labels.length = 1 || y.labels.length = 1 then
+      -- NumPy broadcasts the comparison of a length-1 coordinate
+      (if (x.labels ++ y.labels).all (fun c => some c = x.labels.head?) then .error .outOfScope else .error .assert)
+    else .error .value
+  | none =>
+    match a.scalar? y.name with
+    | some v => if y.labels.all (· = v) then .error .outOfScope else .error .assert
+    | none => .ok ()
+
+/-- …and for a scalar coordinate of the other array -/
+def broadcastCheckScalar (a : NodeArray) (nv : String × Coord) : Except Err Unit :=
+  match a.scalar? nv.1 with
+  | some w => if nv.2 = w then .ok () else .error .assert
+  | none =>
+    match a.findDim nv.1 with
+    | some x => if !x.indexed then .ok () else if x.labels.all (· = nv.2) then .error .outOfScope else .error .assert
+    | none => .ok ()
+
+def errorsOf (l : List (Except Err Unit)) : List Err :=
+  l.filterMap (fun r => match r with | .error e => some e | .ok _ => none)
+
+/-- the assertion loop of `broadcast`: coordinates present in both must be equal. The loop runs in
+the order of xarray's coordinate dictionary, which the model does not track: when several
+coordinates fail in different ways the first failure is not determined (out of scope). -/
+def broadcastCheck (a b : NodeArray) : Except Err Unit :=
+  match errorsOf (b.dims.map (broadcastCheckDim a) ++ b.scalars.map (broadcastCheckScalar a)) with
+  | [] => .ok ()
+  | e :: rest => if rest.all (· = e) then .error e else .error .outOfScope
 
 /-- `Action.broadcast(other)` (after the fix: the trivial nodes are broadcast by dimension name;
 `broadcast_like` puts the other array's dimensions first) -/
